@@ -121,7 +121,8 @@ def generate(rng, tier):
         if rng.random() < 0.15:
             op["fault"] = rng.choice([{"kind": "enospc", "at": rng.randint(1, 60), "torn": rng.random() < 0.5},
                                       {"kind": "eio", "at": rng.randint(1, 60)},
-                                      {"kind": "open", "at": rng.randint(1, 2)}])
+                                      {"kind": "open", "at": rng.randint(1, 2)},
+                                      {"kind": "interrupt", "at": rng.randint(1, 300)}])
         ops.append(op)
         if rng.random() < 0.15:
             ops.append({"op": "rebuild", "array": rng.random() < 0.5})
